@@ -6,7 +6,7 @@ From Coq Require Import List String NArith ZArith Bool.
 From SV Require Import Bin.LE Bin.Struct Bin.StructProofs Bin.RLE Bin.RLEProofs Bin.FindInsert Bin.FindInsertProofs
   Fmt.BspFormatsSpec Fmt.BspFormatsProofs Fmt.BspVisRow Fmt.BspVisRowProofs Fmt.BspTexStrings Fmt.BspTexStringsProofs
   Fmt.BspRecords Fmt.BspRecordsProofs Fmt.VmfText Fmt.BspEntLump Fmt.BspEntLumpProofs Fmt.BspDedup Fmt.BspDedupProofs Fmt.BspFlagSplit Fmt.BspFlagSplitProofs
-  Fmt.BspOverlayRec Fmt.BspOverlayRecProofs Fmt.BspWorklist Fmt.BspWorklistProofs Fmt.BspPhys Fmt.BspPhysProofs Bin.BspDeferred Bin.BspDeferredProofs Fmt.BspSpriteDict Fmt.BspSpriteDictProofs Fmt.BspSaveOrder Fmt.BspSaveOrderProofs Fmt.BspPropVersion Fmt.BspPropVersionProofs.
+  Fmt.BspOverlayRec Fmt.BspOverlayRecProofs Fmt.BspWorklist Fmt.BspWorklistProofs Fmt.BspPhys Fmt.BspPhysProofs Bin.BspDeferred Bin.BspDeferredProofs Fmt.BspSpriteDict Fmt.BspSpriteDictProofs Fmt.BspSaveOrder Fmt.BspSaveOrderProofs Fmt.BspPropVersion Fmt.BspPropVersionProofs Fmt.BspSaveCommit Fmt.BspSaveCommitProofs.
 Import ListNotations.
 
 (** * struct: unpack inverts pack for every format and every fitting record *)
@@ -487,3 +487,20 @@ Theorem c11_static_prop_format_property : forall c, pv_ok c = true ->
                      write_props c m h = Some (Some (m, m, lw, h)) /\ read_sized c bv h sz m = Some (Some (m, m, lw)) /\
                      (unique_pair c m = true -> read_sized c bv h sz 0%N = Some (Some (m, m, lw)))).
 Proof. exact pv_property. Qed.
+
+(** * Round 5: what save() leaves behind when a writer rejects a value *)
+(** Generic over the event list read from the rebuild loop of [save()] (the view leaves the cache / a point that can raise / the
+    bytes are stored in the lump): if it passes [commit_ok], then whichever raising point raises, the view is still in the cache
+    when save() gives up and nothing was stored - the caller can repair the value and save again -, and when nothing raises the
+    view has left the cache and its bytes are in the lump. *)
+Theorem c11_rejected_save_keeps_the_view : forall evs, commit_ok evs = true ->
+  (forall k, let '(s, finished) := sc_run evs (Some k) sc_init in finished = false -> cached s = true /\ stored s = false) /\
+  (let '(s, finished) := sc_run evs None sc_init in finished = true /\ cached s = false /\ stored s = true).
+Proof. exact commit_ok_sound. Qed.
+(** The view is popped from the cache before its writer runs: a writer that raises leaves it neither in the cache nor in the lump
+    (the next save() writes an empty lump without any error).  Dropping it after the last raising point passes. *)
+Theorem c11_rejected_save_pop_first_refuted :
+  commit_ok [EvDrop; EvRaise; EvStore] = false /\
+  sc_run [EvDrop; EvRaise; EvStore] (Some 0%nat) sc_init = ({| cached := false; stored := false |}, false) /\
+  commit_ok [EvRaise; EvDrop; EvStore] = true.
+Proof. exact commit_pop_first_refuted. Qed.
